@@ -25,6 +25,25 @@ type Server struct {
 	Env      *univ.Env
 	Exec     *executor.Executor
 	Recovers atomic.Int64
+	// Presenter: a custom error presenter is installed (it marks every error it presents)
+	Presenter bool
+}
+
+const presentedMark = "verif_presented"
+
+// WithPresenter installs an error presenter that marks every error it is given; a response error
+// without the mark did not pass the configured presenter (Real.Unpresented counts them).
+func (s *Server) WithPresenter() *Server {
+	s.Presenter = true
+	s.Exec.SetErrorPresenter(func(ctx context.Context, err error) *gqlerror.Error {
+		e := graphql.DefaultErrorPresenter(ctx, err)
+		if e.Extensions == nil {
+			e.Extensions = map[string]any{}
+		}
+		e.Extensions[presentedMark] = true
+		return e
+	})
+	return s
 }
 
 func NewServer(env *univ.Env) *Server {
@@ -76,6 +95,7 @@ type Real struct {
 	Invocations   []string
 	DirCalls      []string
 	Events        []univ.Event
+	Unpresented   []string // errors that lack the presenter's mark (only with WithPresenter)
 	TimedOut      bool
 	Doc           *ast.QueryDocument
 }
@@ -139,6 +159,13 @@ func (s *Server) Run(ctx context.Context, run *univ.Run, query, opName string, v
 				return
 			}
 			p := &Payload{Label: resp.Label, HasNext: resp.HasNext, Errors: convErrors(resp.Errors), Extensions: len(resp.Extensions)}
+			if s.Presenter {
+				for _, e := range resp.Errors {
+					if m, _ := e.Extensions[presentedMark].(bool); !m {
+						out.Unpresented = append(out.Unpresented, pathString(e.Path)+": "+e.Message)
+					}
+				}
+			}
 			for _, e := range resp.Path {
 				switch v := e.(type) {
 				case ast.PathName:
